@@ -485,6 +485,14 @@ def name_modules():
     for ins, outs, wires, mid, last in out:
         items = [ins, outs] + ([wires] if wires else []) + mid + [last]
         yield {"name": "top", "ports": ins[1] + outs[1], "items": items}
+    # what the library's own writer emits for constants: a wire called tie_0 / tie_1 assigned ITS constant
+    for tie, k in (("tie_0", "1'b0"), ("tie_1", "1'b1")):
+        yield {"name": "top", "ports": ["a", "y", "z"],
+               "items": [["input", ["a"]], ["output", ["y", "z"]], ["wire", [tie]], ["assign", [[tie, ("c", k)]]],
+                         ["assign", [["y", ("and", A, W(tie))]]], ["assign", [["z", ("or", W(tie), A)]]]]}
+        yield {"name": "top", "ports": ["a", "y", "z"],
+               "items": [["input", ["a"]], ["output", ["y", "z"]], ["wire", [tie]],
+                         ["assign", [["y", ("xor", A, W(tie))]]], ["assign", [[tie, ("c", k)]]], ["gate", "nor", [["U0", ["z", tie, "a"]]]]]}
 
 
 def run_names(job, acc):
